@@ -141,6 +141,9 @@ pub open spec fn entry_wf(f: &Fsm, g: &GlobalData) -> bool {
     &&& forall|h: u32| valid_id(f, h) && is_history(f, h) ==> #[trigger] history_scope_ok(f, h)
     &&& forall|h: u32| hv_has(g, h) ==> #[trigger] hv_entry_ok(f, g, h)
     &&& forall|s: u32| valid_id(f, s) && (#[trigger] st(f, s)).initial != 0 ==> valid_tr(f, st(f, s).initial)
+    &&& forall|s: u32| valid_id(f, s) && (#[trigger] st(f, s)).parent == 0 ==> s == f.pseudo_root
+    &&& valid_id(f, f.pseudo_root)
+    &&& !st(f, f.pseudo_root).is_final
 }
 
 pub open spec fn initial_ok(f: &Fsm, s: u32) -> bool {
@@ -333,13 +336,25 @@ pub open spec fn nz_pred() -> spec_fn(u32) -> bool {
     |c: u32| c > 0
 }
 
-pub open spec fn entry_blocks(f: &Fsm, x: Ent, l: Seq<u32>) -> Seq<u32>
+/// the oracle call made when a state is entered for the first time under late binding
+/// (`before` = the states entered earlier in this microstep)
+pub open spec fn late_init_call(f: &Fsm, before: Seq<u32>, s: u32) -> Seq<Call> {
+    if is_late(f) && st(f, s).isFirstEntry && !before.contains(s) {
+        seq![Call::Init(s, true)]
+    } else {
+        Seq::<Call>::empty()
+    }
+}
+
+/// oracle calls made while entering the states of l in that order: per state the late-binding initialisation (before
+/// any content of that state), then its onentry / initial / history-default content blocks
+pub open spec fn entry_calls(f: &Fsm, x: Ent, l: Seq<u32>) -> Seq<Call>
     decreases l.len(),
 {
     if l.len() == 0 {
         Seq::empty()
     } else {
-        entry_blocks(f, x, l.drop_last()) + exe_spec(f, x, l.last()).filter(nz_pred())
+        entry_calls(f, x, l.drop_last()) + late_init_call(f, l.drop_last(), l.last()) + execs(exe_spec(f, x, l.last()).filter(nz_pred()))
     }
 }
 
@@ -351,19 +366,6 @@ pub open spec fn is_late(f: &Fsm) -> bool {
     f.binding == BindingType::Late
 }
 
-/// late binding: initializeDataModel(s, true) for the states entered for the first time, in entry order
-pub open spec fn late_inits(f: &Fsm, l: Seq<u32>) -> Seq<(u32, bool)>
-    decreases l.len(),
-{
-    if l.len() == 0 {
-        Seq::empty()
-    } else if is_late(f) && st(f, l.last()).isFirstEntry {
-        late_inits(f, l.drop_last()).push((l.last(), true))
-    } else {
-        late_inits(f, l.drop_last())
-    }
-}
-
 /// some entered state is a final child of the document root
 pub open spec fn root_final_in(f: &Fsm, l: Seq<u32>) -> bool {
     exists|i: int| 0 <= i < l.len() && st(f, #[trigger] l[i]).is_final && st(f, l[i]).parent == f.pseudo_root
@@ -371,4 +373,29 @@ pub open spec fn root_final_in(f: &Fsm, l: Seq<u32>) -> bool {
 
 pub open spec fn empty_ent() -> Ent {
     Ent { e: Seq::empty(), d: Seq::empty(), h: Map::empty() }
+}
+
+pub proof fn lemma_entry_sorted(f: &Fsm, l: Seq<u32>)
+    requires
+        forall|i: int, j: int| 0 <= i < j < l.len() ==> !(doc_order(f, #[trigger] l[i], #[trigger] l[j]) is Greater),
+    ensures
+        entry_sorted(f, l),
+{
+}
+
+/// the few document facts the body of the enterStates loop needs (implied by entry_wf)
+pub open spec fn enter_wf(f: &Fsm) -> bool {
+    &&& forall|s: u32| valid_id(f, s) && st(f, s).initial != 0 ==> valid_tr(f, #[trigger] st(f, s).initial)
+    &&& forall|s: u32| valid_id(f, s) && #[trigger] parent_of(f, s) == 0 ==> s == f.pseudo_root
+    &&& valid_id(f, f.pseudo_root)
+    &&& !st(f, f.pseudo_root).is_final
+}
+
+pub proof fn lemma_enter_wf(f: &Fsm, g: &GlobalData)
+    requires
+        entry_wf(f, g),
+    ensures
+        enter_wf(f),
+        wf_tree(f),
+{
 }
